@@ -1,5 +1,5 @@
-(* C14: concrete documents and files (witnesses of the refuted statements, regression
-   examples of the repaired ones, non-vacuity examples).  The texts are what the library
+(* C14: concrete documents and files (regression examples of the repaired defects F33 / F34, the
+   witness of the refuted statement F35, non-vacuity examples).  The texts are what the library
    (to_json, json.dumps) and the implementation under test produced; '@' stands for a newline.
    Generated once by a script; every statement is closed by vm_compute. *)
 From Coq Require Import String.
@@ -15,13 +15,18 @@ Definition doc_indent : text := Eval vm_compute in txt "{@  ""id"": ""None"",@  
 Definition doc_zero : text := Eval vm_compute in txt "{""id"": ""None"",""format"": ""Biological Observation Matrix 1.0.0"",""format_url"": ""http://biom-format.org"",""matrix_type"": ""sparse"",""generated_by"": ""g"",""date"": ""2026-10-01T00:00:00"",""type"": null,""matrix_element_type"": ""float"",""shape"": [2, 3],""data"": [],""rows"": [{""id"": ""o1"", ""metadata"": null},{""id"": ""o2"", ""metadata"": null}],""columns"": [{""id"": ""s1"", ""metadata"": null},{""id"": ""s2"", ""metadata"": null},{""id"": ""s3"", ""metadata"": null}]}".
 Definition doc_bracket : text := Eval vm_compute in txt "{""id"": ""None"",""format"": ""Biological Observation Matrix 1.0.0"",""format_url"": ""http://biom-format.org"",""matrix_type"": ""sparse"",""generated_by"": ""g"",""date"": ""2026-10-01T00:00:00"",""type"": null,""matrix_element_type"": ""float"",""shape"": [3, 3],""data"": [[0,1,1.0],[0,2,2.0],[2,0,3.0],[2,2,4.5]],""rows"": [{""id"": ""o]1"", ""metadata"": null},{""id"": ""o2"", ""metadata"": null},{""id"": ""o3"", ""metadata"": null}],""columns"": [{""id"": ""s1"", ""metadata"": null},{""id"": ""s2"", ""metadata"": null},{""id"": ""s3"", ""metadata"": null}]}".
 Definition doc_quote : text := Eval vm_compute in txt "{""id"": ""None"",""format"": ""Biological Observation Matrix 1.0.0"",""format_url"": ""http://biom-format.org"",""matrix_type"": ""sparse"",""generated_by"": ""g"",""date"": ""2026-10-01T00:00:00"",""type"": null,""matrix_element_type"": ""float"",""shape"": [3, 3],""data"": [[0,1,1.0],[0,2,2.0],[2,0,3.0],[2,2,4.5]],""rows"": [{""id"": ""o\""1"", ""metadata"": null},{""id"": ""o2"", ""metadata"": null},{""id"": ""o3"", ""metadata"": null}],""columns"": [{""id"": ""s1"", ""metadata"": null},{""id"": ""s2"", ""metadata"": null},{""id"": ""s3"", ""metadata"": null}]}".
+Definition doc_wild : text := Eval vm_compute in txt "{""id"": ""None"",""format"": ""Biological Observation Matrix 1.0.0"",""format_url"": ""http://biom-format.org"",""matrix_type"": ""sparse"",""generated_by"": ""g"",""date"": ""2026-10-01T00:00:00"",""type"": null,""matrix_element_type"": ""float"",""shape"": [3, 3],""data"": [[0,1,1.0],[0,2,2.0],[2,0,3.0],[2,2,4.5]],""rows"": [{""id"": ""o[1}"", ""metadata"": {""a"": ""x]\""{""}},{""id"": ""o2"", ""metadata"": {""a"": ""],[""}},{""id"": ""o\""3\\"", ""metadata"": {""a"": ""\\\""""}}],""columns"": [{""id"": ""s1"", ""metadata"": null},{""id"": ""s{2"", ""metadata"": null},{""id"": ""s3"", ""metadata"": null}]}".
+Definition doc_wild_indent : text := Eval vm_compute in txt "{@  ""id"": ""None"",@  ""format"": ""Biological Observation Matrix 1.0.0"",@  ""format_url"": ""http://biom-format.org"",@  ""matrix_type"": ""sparse"",@  ""generated_by"": ""g"",@  ""date"": ""2026-10-01T00:00:00"",@  ""type"": null,@  ""matrix_element_type"": ""float"",@  ""shape"": [@    3,@    3@  ],@  ""data"": [@    [@      0,@      1,@      1.0@    ],@    [@      0,@      2,@      2.0@    ],@    [@      2,@      0,@      3.0@    ],@    [@      2,@      2,@      4.5@    ]@  ],@  ""rows"": [@    {@      ""id"": ""o[1}"",@      ""metadata"": {@        ""a"": ""x]\""{""@      }@    },@    {@      ""id"": ""o2"",@      ""metadata"": {@        ""a"": ""],[""@      }@    },@    {@      ""id"": ""o\""3\\"",@      ""metadata"": {@        ""a"": ""\\\""""@      }@    }@  ],@  ""columns"": [@    {@      ""id"": ""s1"",@      ""metadata"": null@    },@    {@      ""id"": ""s{2"",@      ""metadata"": null@    },@    {@      ""id"": ""s3"",@      ""metadata"": null@    }@  ]@}".
 Definition doc_mdkey : text := Eval vm_compute in txt "{""id"": ""None"",""format"": ""Biological Observation Matrix 1.0.0"",""format_url"": ""http://biom-format.org"",""matrix_type"": ""sparse"",""generated_by"": ""g"",""date"": ""2026-10-01T00:00:00"",""type"": null,""matrix_element_type"": ""float"",""shape"": [3, 3],""data"": [[0,1,1.0],[0,2,2.0],[2,0,3.0],[2,2,4.5]],""rows"": [{""id"": ""o1"", ""metadata"": {""columns"": 1}},{""id"": ""o2"", ""metadata"": {""columns"": 2}},{""id"": ""o3"", ""metadata"": {""columns"": 3}}],""columns"": [{""id"": ""s1"", ""metadata"": null},{""id"": ""s2"", ""metadata"": null},{""id"": ""s3"", ""metadata"": null}]}".
 Definition out_obs : text := Eval vm_compute in txt "{@""id"": ""None""@,@""format"": ""Biological Observation Matrix 1.0.0""@,@""format_url"": ""http://biom-format.org""@,@""type"": ""OTU table""@,@""generated_by"": ""g""@,@""date"": ""2026-10-01T00:00:00""@,@""matrix_type"": ""sparse""@,@""matrix_element_type"": ""float""@,@""data"": [[0,1,1.0],[0,2,2.0],[1,0,3.0],[1,2,4.5]], ""shape"": [2, 3]@,@""rows"": [{""id"": ""o1"", ""metadata"": null}, {""id"": ""o3"", ""metadata"": null}]@,@""columns"": [{""id"": ""s1"", ""metadata"": null},{""id"": ""s2"", ""metadata"": null},{""id"": ""s3"", ""metadata"": null}]@}".
 Definition out_samp_indent : text := Eval vm_compute in txt "{@""id"": ""None""@,@""format"": ""Biological Observation Matrix 1.0.0""@,@""format_url"": ""http://biom-format.org""@,@""type"": ""OTU table""@,@""generated_by"": ""g""@,@""date"": ""2026-10-01T00:00:00""@,@""matrix_type"": ""sparse""@,@""matrix_element_type"": ""float""@,@""data"": [[0,0,2.0],[2,0,4.5]], ""shape"": [3, 1]@,@""columns"": [{""id"": ""s3"", ""metadata"": null}]@,@""rows"": [@    {@      ""id"": ""o1"",@      ""metadata"": null@    },@    {@      ""id"": ""o2"",@      ""metadata"": null@    },@    {@      ""id"": ""o3"",@      ""metadata"": null@    }@  ]@}".
 Definition out_gap : text := Eval vm_compute in txt "{@""id"": ""None""@,@""format"": ""Biological Observation Matrix 1.0.0""@,@""format_url"": ""http://biom-format.org""@,@""type"": ""OTU table""@,@""generated_by"": ""g""@,@""date"": ""2026-10-01T00:00:00""@,@""matrix_type"": ""sparse""@,@""matrix_element_type"": ""float""@,@""data"": [], ""shape"": [1, 3]@,@""rows"": [{""id"": ""o2"", ""metadata"": null}]@,@""columns"": [{""id"": ""s1"", ""metadata"": null},{""id"": ""s2"", ""metadata"": null},{""id"": ""s3"", ""metadata"": null}]@}".
 Definition out_zero : text := Eval vm_compute in txt "{@""id"": ""None""@,@""format"": ""Biological Observation Matrix 1.0.0""@,@""format_url"": ""http://biom-format.org""@,@""type"": null@,@""generated_by"": ""g""@,@""date"": ""2026-10-01T00:00:00""@,@""matrix_type"": ""sparse""@,@""matrix_element_type"": ""float""@,@""data"": [], ""shape"": [2, 2]@,@""columns"": [{""id"": ""s1"", ""metadata"": null}, {""id"": ""s2"", ""metadata"": null}]@,@""rows"": [{""id"": ""o1"", ""metadata"": null},{""id"": ""o2"", ""metadata"": null}]@}".
-Definition bracket_rows : text := Eval vm_compute in txt """rows"": [{""id"": ""o]1"", ""metadata"": null},{""id"": ""o2"", ""metadata"": null},{""id"": ""o3"", ""metadata"": null}],""columns"": [{""id"": ""s1"", ""metadata"": null},{""id"": ""s2"", ""metadata"": null},{""id"": ""s3"", ""metadata"": null}]}".
-Definition out_bracket_samp : text := Eval vm_compute in txt "{@""id"": ""None""@,@""format"": ""Biological Observation Matrix 1.0.0""@,@""format_url"": ""http://biom-format.org""@,@""type"": null@,@""generated_by"": ""g""@,@""date"": ""2026-10-01T00:00:00""@,@""matrix_type"": ""sparse""@,@""matrix_element_type"": ""float""@,@""data"": [[0,0,1.0]], ""shape"": [3, 1]@,@""columns"": [{""id"": ""s2"", ""metadata"": null}]@,@""rows"": [{""id"": ""o]1"", ""metadata"": null},{""id"": ""o2"", ""metadata"": null},{""id"": ""o3"", ""metadata"": null}],""columns"": [{""id"": ""s1"", ""metadata"": null},{""id"": ""s2"", ""metadata"": null},{""id"": ""s3"", ""metadata"": null}]}@}".
+Definition out_bracket_obs : text := Eval vm_compute in txt "{@""id"": ""None""@,@""format"": ""Biological Observation Matrix 1.0.0""@,@""format_url"": ""http://biom-format.org""@,@""type"": null@,@""generated_by"": ""g""@,@""date"": ""2026-10-01T00:00:00""@,@""matrix_type"": ""sparse""@,@""matrix_element_type"": ""float""@,@""data"": [[0,1,1.0],[0,2,2.0]], ""shape"": [2, 3]@,@""rows"": [{""id"": ""o]1"", ""metadata"": null}, {""id"": ""o2"", ""metadata"": null}]@,@""columns"": [{""id"": ""s1"", ""metadata"": null},{""id"": ""s2"", ""metadata"": null},{""id"": ""s3"", ""metadata"": null}]@}".
+Definition out_bracket_samp : text := Eval vm_compute in txt "{@""id"": ""None""@,@""format"": ""Biological Observation Matrix 1.0.0""@,@""format_url"": ""http://biom-format.org""@,@""type"": null@,@""generated_by"": ""g""@,@""date"": ""2026-10-01T00:00:00""@,@""matrix_type"": ""sparse""@,@""matrix_element_type"": ""float""@,@""data"": [[0,0,1.0]], ""shape"": [3, 1]@,@""columns"": [{""id"": ""s2"", ""metadata"": null}]@,@""rows"": [{""id"": ""o]1"", ""metadata"": null},{""id"": ""o2"", ""metadata"": null},{""id"": ""o3"", ""metadata"": null}]@}".
+Definition out_quote_obs : text := Eval vm_compute in txt "{@""id"": ""None""@,@""format"": ""Biological Observation Matrix 1.0.0""@,@""format_url"": ""http://biom-format.org""@,@""type"": null@,@""generated_by"": ""g""@,@""date"": ""2026-10-01T00:00:00""@,@""matrix_type"": ""sparse""@,@""matrix_element_type"": ""float""@,@""data"": [[0,1,1.0],[0,2,2.0]], ""shape"": [1, 3]@,@""rows"": [{""id"": ""o\""1"", ""metadata"": null}]@,@""columns"": [{""id"": ""s1"", ""metadata"": null},{""id"": ""s2"", ""metadata"": null},{""id"": ""s3"", ""metadata"": null}]@}".
+Definition out_wild_obs : text := Eval vm_compute in txt "{@""id"": ""None""@,@""format"": ""Biological Observation Matrix 1.0.0""@,@""format_url"": ""http://biom-format.org""@,@""type"": null@,@""generated_by"": ""g""@,@""date"": ""2026-10-01T00:00:00""@,@""matrix_type"": ""sparse""@,@""matrix_element_type"": ""float""@,@""data"": [[0,1,1.0],[0,2,2.0],[1,0,3.0],[1,2,4.5]], ""shape"": [2, 3]@,@""rows"": [{""id"": ""o[1}"", ""metadata"": {""a"": ""x]\""{""}}, {""id"": ""o\""3\\"", ""metadata"": {""a"": ""\\\""""}}]@,@""columns"": [{""id"": ""s1"", ""metadata"": null},{""id"": ""s{2"", ""metadata"": null},{""id"": ""s3"", ""metadata"": null}]@}".
+Definition out_wild_samp_indent : text := Eval vm_compute in txt "{@""id"": ""None""@,@""format"": ""Biological Observation Matrix 1.0.0""@,@""format_url"": ""http://biom-format.org""@,@""type"": null@,@""generated_by"": ""g""@,@""date"": ""2026-10-01T00:00:00""@,@""matrix_type"": ""sparse""@,@""matrix_element_type"": ""float""@,@""data"": [[0,0,1.0]], ""shape"": [3, 1]@,@""columns"": [{""id"": ""s{2"", ""metadata"": null}]@,@""rows"": [@    {@      ""id"": ""o[1}"",@      ""metadata"": {@        ""a"": ""x]\""{""@      }@    },@    {@      ""id"": ""o2"",@      ""metadata"": {@        ""a"": ""],[""@      }@    },@    {@      ""id"": ""o\""3\\"",@      ""metadata"": {@        ""a"": ""\\\""""@      }@    }@  ]@}".
 Definition mdkey_columns : text := Eval vm_compute in txt """columns"": 1".
 
 Definition id_o1 : text := Eval vm_compute in txt "o1".
@@ -30,6 +35,11 @@ Definition id_o3 : text := Eval vm_compute in txt "o3".
 Definition id_s1 : text := Eval vm_compute in txt "s1".
 Definition id_s2 : text := Eval vm_compute in txt "s2".
 Definition id_s3 : text := Eval vm_compute in txt "s3".
+Definition id_ob : text := Eval vm_compute in txt "o]1".
+Definition id_oq : text := Eval vm_compute in txt "o""1".
+Definition id_w1 : text := Eval vm_compute in txt "o[1}".
+Definition id_w3 : text := Eval vm_compute in txt "o""3\".
+Definition id_ws2 : text := Eval vm_compute in txt "s{2".
 
 (* ---- the slicer end to end: the model returns the very text the implementation wrote *)
 Lemma wit_subset_obs : subset_json doc_ok Obs [id_o3; id_o1] = ROk out_obs.
@@ -44,18 +54,20 @@ Proof. vm_compute. reflexivity. Qed.
 Lemma wit_unknown_id : subset_json doc_ok Obs [id_o1; id_s1] = RErr E_KEY.
 Proof. vm_compute. reflexivity. Qed.
 
-(* ---- F34: a ']' inside a row id.  The document is valid JSON, every requested id exists *)
-Lemma wit_bracket_valid : json_loads doc_bracket <> None /\ json_loads doc_quote <> None /\ json_loads doc_mdkey <> None.
+(* repaired (F34): brackets, braces, quotes and backslashes inside ids and metadata strings *)
+Lemma wit_docs_valid : json_loads doc_bracket <> None /\ json_loads doc_quote <> None /\ json_loads doc_wild <> None
+  /\ json_loads doc_mdkey <> None.
 Proof. vm_compute. repeat split; discriminate. Qed.
-Lemma wit_bracket_rows :
-  direct_parse_key doc_bracket K_ROWS = ROk bracket_rows /\ json_loads ([LBRACE] ++ bracket_rows ++ [RBRACE]) = None.
-Proof. vm_compute. split; reflexivity. Qed.
-Lemma wit_bracket_obs : subset_json doc_bracket Obs [id_o2] = RErr E_VALUE.
-Proof. vm_compute. reflexivity. Qed.
-Lemma wit_bracket_samp : subset_json doc_bracket Samp [id_s2] = ROk out_bracket_samp /\ json_loads out_bracket_samp = None.
-Proof. vm_compute. split; reflexivity. Qed.
-Lemma wit_quote_obs : subset_json doc_quote Obs [id_o2] = RErr E_VALUE.
-Proof. vm_compute. reflexivity. Qed.
+Lemma wit_bracket_obs : subset_json doc_bracket Obs [id_o2; id_ob] = ROk out_bracket_obs /\ json_loads out_bracket_obs <> None.
+Proof. vm_compute. split; [reflexivity|discriminate]. Qed.
+Lemma wit_bracket_samp : subset_json doc_bracket Samp [id_s2] = ROk out_bracket_samp /\ json_loads out_bracket_samp <> None.
+Proof. vm_compute. split; [reflexivity|discriminate]. Qed.
+Lemma wit_quote_obs : subset_json doc_quote Obs [id_oq] = ROk out_quote_obs /\ json_loads out_quote_obs <> None.
+Proof. vm_compute. split; [reflexivity|discriminate]. Qed.
+Lemma wit_wild_obs : subset_json doc_wild Obs [id_w3; id_w1] = ROk out_wild_obs /\ json_loads out_wild_obs <> None.
+Proof. vm_compute. split; [reflexivity|discriminate]. Qed.
+Lemma wit_wild_samp_indent : subset_json doc_wild_indent Samp [id_ws2] = ROk out_wild_samp_indent /\ json_loads out_wild_samp_indent <> None.
+Proof. vm_compute. split; [reflexivity|discriminate]. Qed.
 
 (* ---- F35: observation metadata with a key named "columns" *)
 Definition columns_is_1 : text := Eval vm_compute in txt """columns"": 1".       (* the text "columns": 1 *)
